@@ -263,3 +263,39 @@ func (r *Report) Finish(verifDir string, replayKey string) int {
 	}
 	return 0
 }
+
+// OpenFindingKeys returns the obligation keys recorded as open findings of a property.
+func OpenFindingKeys(verifDir, prop string) (map[string]bool, error) {
+	findings, err := loadFindings(filepath.Join(verifDir, "known_findings.jsonl"))
+	if err != nil {
+		return nil, err
+	}
+	out := map[string]bool{}
+	for _, f := range findings {
+		if f.Property == prop && f.Status == "open" {
+			out[f.Key] = true
+		}
+	}
+	return out, nil
+}
+
+// Import copies the obligations of rules `wanted` from a report of another property into r under rule id `as`.
+// Obligations that are open findings of the source property stay with the source (they are not raised again).
+func (r *Report) Import(from *Report, wanted map[string]bool, as string, why string, openOfSource map[string]bool) int {
+	n := 0
+	for _, o := range from.Obls {
+		if !wanted[o.Rule] {
+			continue
+		}
+		if o.Status != "ok" && openOfSource[o.Key] {
+			r.Note("shared rule %s: %s is an open finding of %s and is reported there", as, o.Key, from.Prop)
+			continue
+		}
+		n++
+		r.add(&Obligation{Rule: as, Key: as + ":" + o.Key, Where: o.Where, Desc: "[" + why + "; rule shared with " + from.Prop + "] " + o.Desc, Status: o.Status, Detail: o.Detail, Path: o.Path})
+	}
+	for f := range from.Funcs {
+		r.Funcs[f] = true
+	}
+	return n
+}
